@@ -72,7 +72,9 @@ struct C02Delivery : Monitor {
 			bool live = v.active && v.authenticated && !v.disabled && v.last_pkt + 60 > (int64_t)w->S.time_s();
 			if (!live) break;
 			Bytes z = z_compress(p);
-			if (v.conn == 0) { acc_s.push_back({p, w->S.now, true, pkt_serial(p)}); w->probes["c02.srv.accept.raw"]++; return; }
+			// (rawlate runs lose every raw frame of the server by construction: a packet that goes out while a late raw login has the
+			// session in raw mode for a moment is lost to the fault, not to anything the property is about)
+			if (v.conn == 0) { acc_s.push_back({p, w->S.now, !w->S.faults.rawlate, pkt_serial(p)}); w->probes[w->S.faults.rawlate ? "c02.srv.accept.raw_lost_to_fault" : "c02.srv.accept.raw"]++; return; }
 			bool room = v.out.len == 0 || v.outq_filled < 4;
 			if (!room) { dropped_s++; w->probes["c02.srv.queue_full"]++; return; }
 			bool fits = v.fragsize > 0 && (z.size() + v.fragsize - 1) / v.fragsize <= 16 && z.size() <= 65536;
